@@ -392,7 +392,7 @@ pub fn run(s: &Session) {
         }
     }
     s.foreach("corpus-both-flags", plain, true, check);
-    s.forall("variants", s.pick(30_000, 600_000), move || variant_strategy(full), check);
+    s.forall("variants", s.pick(150_000, 3_000_000), move || variant_strategy(full), check);
     for c in ["valid", "invalid", "duplicate-inputs", "invalid:with-collateral-return", "invalid:no-collateral-return",
         "invalid:with-collateral", "invalid:no-collateral", "invalid:duplicate-collateral",
         "era:byron", "era:shelley", "era:allegra", "era:mary", "era:alonzo", "era:babbage", "era:conway"] {
